@@ -7,14 +7,20 @@ HOME = os.path.dirname(os.path.dirname(os.path.abspath(__file__)))
 def main():
     ap = argparse.ArgumentParser()
     ap.add_argument("patch"); ap.add_argument("props", nargs="+"); ap.add_argument("--tests", action="store_true")
-    ap.add_argument("--demo"); ap.add_argument("--seeds", default="1"); ap.add_argument("--tier", default="quick")
+    ap.add_argument("--demo"); ap.add_argument("--seeds", default="1"); ap.add_argument("--tier", default="quick"); ap.add_argument("--rebase")
     a = ap.parse_args()
     scratch = tempfile.mkdtemp(prefix="cobald-seed-")
     repo = scratch + "/r"
     rc_all = 0
     try:
         subprocess.check_call(["git", "-C", "/repo", "worktree", "add", "--detach", "-f", repo, "HEAD"], stdout=subprocess.DEVNULL, stderr=subprocess.DEVNULL)
-        subprocess.check_call(["git", "-C", repo, "apply", os.path.abspath(a.patch)])
+        if subprocess.call(["git", "-C", repo, "apply", os.path.abspath(a.patch)], stderr=subprocess.DEVNULL) != 0:
+            subprocess.check_call(["git", "-C", repo, "apply", "--3way", os.path.abspath(a.patch)])
+            subprocess.call(["git", "-C", repo, "reset", "-q"])
+            rebased = subprocess.check_output(["git", "-C", repo, "diff"]).decode()
+            print("note: patch needed --3way against current HEAD" + (f"; rebased copy written to {a.rebase}" if a.rebase else ""))
+            if a.rebase:
+                open(a.rebase, "w").write(rebased)
         env = {**os.environ, "PYTHONPATH": repo + "/src"}
         if a.tests:
             r = subprocess.run(["/venv/bin/python", "-m", "pytest", "-q", "-p", "no:cacheprovider", "--timeout=900"], cwd=repo, env=env, capture_output=True, text=True)
